@@ -3,17 +3,17 @@
    Executable state-machine model of the two dlopen() front ends over ONE shared C library
    (several lib objects may be open on the same .so; they share the library's globals).
 
-   In-line mode  (src/cffi/api.py:824 _make_ffi_library, class FFILibrary api.py:905;
-                  backend src/c/_cffi_backend.c:4298 dl_check_closed, 4309 dl_load_function,
-                  4344 dl_read_variable, 4371 dl_write_variable, 4400 dl_close_lib):
+   In-line mode  (src/cffi/api.py:825 _make_ffi_library, class FFILibrary api.py:904;
+                  backend src/c/_cffi_backend.c:4346 dl_check_closed, 4357 dl_load_function,
+                  4392 dl_read_variable, 4419 dl_write_variable, 4448 dl_close_lib):
      * library.__dict__           : cached function cdata and integer constants   -> [ldict]
      * properties on FFILibrary   : one per variable, installed by accessor_variable on the
                                     first access; they survive close                -> [lprops]
      * addr_variables             : cache of ffi.addressof(lib, 'var'); survives close -> [laddr]
      * backendlib.dl_handle       : NULL after close_lib                           -> [lopen]
-     * __cffi_close__ (api.py:933): backendlib.close_lib(); self.__dict__.clear()
-   Out-of-line mode (src/c/cdlopen.c:3 cdlopen_fetch, :60 ffi_dlclose;
-                  src/c/lib_obj.c:208 lib_build_and_cache_attr, :478 lib_getattr, :530 lib_setattr,
+     * __cffi_close__ (api.py:932): backendlib.close_lib(); self.__dict__.clear()
+   Out-of-line mode (src/c/cdlopen.c:3 cdlopen_fetch, :58 ffi_dlclose;
+                  src/c/lib_obj.c:208 lib_build_and_cache_attr, :510 lib_getattr, :559 lib_setattr,
                   :689 address_of_global_var):
      * lib->l_dict                : functions, integer constants AND the GlobSupport objects of
                                     variables (holding the dlsym'ed address)        -> [ldict]
@@ -189,8 +189,8 @@ Definition step_lib (d : desc) (m : list Z) (L : lib) (o : op) : list Z * lib * 
       end
   | OpClose _ =>
       (* both modes: handle := NULL, dict cleared; a second close finds the handle NULL.
-         In-line clears the dict again on every close (api.py:935), out-of-line only when the
-         handle was not NULL (cdlopen.c:68) *)
+         In-line clears the dict again on every close (api.py:934), out-of-line only when the
+         handle was not NULL (cdlopen.c:66) *)
       match lmode L with
       | Inline => (m, {| lmode := Inline; lopen := false; ldict := []; lprops := lprops L; laddr := laddr L |}, ONone)
       | Ool => if lopen L
